@@ -9,7 +9,7 @@ use push::{
 };
 use serde_json::{json, Value};
 
-pub use push::push_vm::verif_alt_state::{AltState, MiniState, Wrapped};
+pub use push::push_vm::verif_alt_state::{AltState, MiniState, SplitState, Wrapped};
 
 pub fn p(n: i64) -> PushProgram {
     PushProgram::Instruction(IntInstruction::push(n).into())
@@ -140,6 +140,42 @@ pub fn observe_mini(r: Result<Option<MiniState>, (usize, StackError)>) -> Value 
                 && prog_ids(st.stack::<PushProgram>()) == prog_ids(&st.todo);
             let mut o = json!({"status": "built", "vals": {"a": a}, "max": {"a": cap(st.only.max_stack_size())},
                                "exec": prog_ids(&st.todo), "execMax": cap(st.todo.max_stack_size())});
+            if !fields_agree {
+                o["accessors_address_other_fields"] = json!(true);
+            }
+            o
+        }
+    }
+}
+
+pub fn observe_split(r: Result<Option<SplitState>, (usize, StackError)>, expect_b: &[i64]) -> Value {
+    match r {
+        Ok(None) => json!({"status": "no_overflow"}),
+        Err((at, StackError::Overflow { .. })) => json!({"status": "overflow", "at": at}),
+        Err((at, e)) => json!({"status": "other_error", "at": at, "err": e.to_string()}),
+        Ok(Some(st)) => {
+            let a: Vec<i64> = top_first(st.stack::<i64>());
+            let bools = top_first(st.stack::<bool>());
+            let fields_agree = top_first(&st.int) == a && top_first(&st.bool) == bools
+                && st.stack::<i64>().max_stack_size() == st.int.max_stack_size()
+                && st.stack::<bool>().max_stack_size() == st.bool.max_stack_size()
+                && st.stack::<Wrapped>().max_stack_size() == st.third.max_stack_size()
+                && st.stack::<PushProgram>().max_stack_size() == st.exec.max_stack_size();
+            let mut inputs = Vec::new();
+            match st.inputs.get(&VariableName::from("x")) {
+                Some(PushInstruction::IntInstruction(IntInstruction::Push(v))) => inputs.push(json!({"name": "x", "s": "a", "v": v.0})),
+                // the model binds the value 4, the generated call passes `true`, the struct's own input
+                // instruction pushes its negation
+                Some(PushInstruction::BoolInstruction(push::instruction::BoolInstruction::Push(v))) =>
+                    inputs.push(json!({"name": "x", "s": "b", "v": if v.0 { -1 } else { 4 }})),
+                Some(_) => inputs.push(json!({"name": "x", "s": "?", "v": -1})),
+                None => {}
+            }
+            let mut o = json!({"status": "built", "vals": {"a": a, "b": b_back(&bools, expect_b)},
+                   "max": {"a": cap(st.int.max_stack_size()), "b": cap(st.bool.max_stack_size())},
+                   "third_max": cap(st.third.max_stack_size()), "third_size": st.third.size(),
+                   "exec": prog_ids(&st.exec), "execMax": cap(st.exec.max_stack_size()),
+                   "limit": st.steps, "inputs": inputs});
             if !fields_agree {
                 o["accessors_address_other_fields"] = json!(true);
             }
